@@ -164,6 +164,64 @@ func zzC18ResourceUpdated() {
 	vReach("end")
 }
 
+// H2': the subscription table driven by the real subscribe/unsubscribe handlers over a short symbolic history, then
+// one ResourceUpdated: the recipients are exactly the sessions whose last action on that URI was a subscribe.
+func zzC18SubscribeHistory() {
+	env := &zzC18Env{}
+	zzC18 = env
+	opts := &ServerOptions{
+		SubscribeHandler:   func(context.Context, *SubscribeRequest) error { return nil },
+		UnsubscribeHandler: func(context.Context, *UnsubscribeRequest) error { return nil },
+	}
+	srv := NewServer(&Implementation{Name: "s", Version: "v"}, opts)
+	a, b := zzLegacySession(srv), zzNewProtoSession(srv)
+	srv.sessions = []*ServerSession{a, b}
+	sess := []*ServerSession{a, b}
+	uris := []string{"file:///x", "file:///y"}
+	var onX [2]bool
+	ctx := context.WithValue(context.Background(), idContextKey{}, jsonrpc.ID(zzID7()))
+	steps := vParam("steps")
+	for i := 0; i < steps; i++ {
+		si, ui := vChoice("session", 2), vChoice("uri", 2)
+		if vBool("subscribe") {
+			_, err := srv.subscribe(ctx, &SubscribeRequest{Session: sess[si], Params: &SubscribeParams{URI: uris[ui]}})
+			vAssert(err == nil, "C18.subscribe.ok")
+			if ui == 0 {
+				onX[si] = true
+			}
+		} else {
+			_, err := srv.unsubscribe(ctx, &UnsubscribeRequest{Session: sess[si], Params: &UnsubscribeParams{URI: uris[ui]}})
+			vAssert(err == nil, "C18.unsubscribe.ok")
+			if ui == 0 {
+				onX[si] = false
+			}
+		}
+	}
+	err := srv.ResourceUpdated(context.Background(), &ResourceUpdatedNotificationParams{URI: "file:///x"})
+	vAssert(err == nil, "C18.updated.no-error")
+	in := func(ss *ServerSession) bool {
+		for _, l := range env.legacy {
+			for _, s := range l {
+				if s == ss {
+					return true
+				}
+			}
+		}
+		for _, m := range env.subscribed {
+			if _, ok := m[ss]; ok {
+				return true
+			}
+		}
+		return false
+	}
+	vAssert(in(a) == onX[0] && in(b) == onX[1], "C18.updated.exactly-the-current-subscribers")
+	if !onX[0] && !onX[1] {
+		_, stale := srv.resourceSubscriptions["file:///x"]
+		vAssert(!stale, "C18.unsubscribe.empty-uri-entry-dropped")
+	}
+	vReach("end")
+}
+
 // H3: client cache vs list_changed, as a bounded interleaving search over the real ListTools,
 // callToolChangedHandler and methodCache code. The "server" is a version counter; a list RPC returns the
 // version current when the server answered.
@@ -219,4 +277,9 @@ func zzC18Cache() {
 func zzNotifyLegacyRU(sessions []*ServerSession, method string, params *ResourceUpdatedNotificationParams, logger *slog.Logger) {
 	zzC18.legacy = append(zzC18.legacy, sessions)
 	zzC18.methods = append(zzC18.methods, method)
+}
+
+func zzID7() jsonrpc.ID {
+	id, _ := jsonrpc.MakeID(float64(7))
+	return id
 }
